@@ -44,7 +44,7 @@ def lowpass_filter(
         real=True,
         backend=backend,
     )
-    out = backend.irfftn(weight * backend.rfftn(img))
+    out = backend.irfftn(weight * backend.rfftn(img), s=img.shape)
     return out.real
 
 
